@@ -92,8 +92,16 @@ Close ==
   /\ gone' = (nAge <= NonceLife)
   /\ UNCHANGED <<now, aRem, pRem, cRem, nAge, tAlloc, tPerm, tBind, bAge>>
 
+(* the same client allocates again on the same 5-tuple after a Close that released the allocation: a new
+   allocation with nothing of the old one left behind (in particular none of its timers) *)
+Reopen ==
+  /\ ~open /\ gone
+  /\ now' = 0 /\ open' = TRUE /\ gone' = FALSE
+  /\ aRem' = AllocLife /\ pRem' = PermLife /\ cRem' = ChanLife /\ nAge' = 0      \* Allocate starts with a 401: fresh nonce
+  /\ tAlloc' = AllocLife \div 2 /\ tPerm' = PermEvery /\ tBind' = BindCheckEvery /\ bAge' = 0
+
 Delays == 0..MaxDelay
-Next == Tick \/ Close
+Next == Tick \/ Close \/ Reopen
         \/ \E d, d2 \in Delays : RefreshAlloc(d, d2) \/ RefreshPerm(d, d2) \/ CheckBind(d, d2)
 Spec == Init /\ [][Next]_vars
 Bounded == now <= Horizon
